@@ -25,7 +25,10 @@ TEXTS = ['gpl 2.0 or mit', 'mit or gpl 2.0', 'mit and gpl 2.0 and mit', 'mit and
          'gplv2 and x mit', 'gnu gpl v2 or mit', 'mit', 'mit or gpl 2.0', 'MIT and (gnu gpl v2 with classpath)', 'foo bar', 'mit mit', '()', 'a and (or b)',
          'classpath', 'mit with classpath', 'foo', 'FOO', 'Foo or mit', 'foo and FOO', 'BAR and (FOO or mit)', 'x with mit', 'gpl 2.0 or later or foo', '', '  ', 'mit or', 'a,b',
          # one-word aliases: known to the default tokenizer only, whatever was built on the instance before
-         'gplv2', 'gplv2 or mit', 'GPLv2 with classpath', 'mit and GPLV2']
+         'gplv2', 'gplv2 or mit', 'GPLv2 with classpath', 'mit and GPLV2',
+         # repeated licenses below a level that has none
+         'mit or (gpl 2.0 and gpl 2.0 and foo)', 'foo and (mit or bar or mit) and gpl 2.0', 'mit or (gpl 2.0 and (foo or foo or mit))',
+         'gpl 2.0 with classpath or (mit and gpl 2.0 with classpath and mit and foo)', '(mit and mit) or (foo and foo)']
 
 
 TEXT_OPS = ['validate_text', 'keys_text', 'unknown_text', 'equiv_text', 'contains_text', 'dedup_text', 'symbols_text', 'primary_text']
@@ -256,7 +259,10 @@ def run(rep, tier, seed):
                # the same operands in another order, repeated, or spelled through an alias
                ('mit and gpl 2.0', 'gpl 2.0 and mit'), ('mit or gpl 2.0 or foo', 'foo or mit or gpl 2.0 or mit'),
                ('(mit or gpl 2.0) and foo', 'foo and (gnu gpl v2 or MIT)'), ('gpl 2.0 with classpath or mit', 'mit or gpl 2.0 with classpath'),
-               ('foo and bar and foo', 'bar and foo'), ('gplv2 or mit', 'GPL 2.0 or mit')]
+               ('foo and bar and foo', 'bar and foo'), ('gplv2 or mit', 'GPL 2.0 or mit'),
+               # repeated licenses at a nested level only, at the top level only, at both
+               ('mit or (gpl 2.0 and gpl 2.0 and foo)', 'mit or (gpl 2.0 and foo)'), ('foo and (mit or bar or mit)', '(mit or bar) and foo and foo'),
+               ('mit or (foo and (bar or bar or mit))', 'mit or mit or (foo and (bar or mit) and foo)')]
     for a, b in related:
         for f1 in flags:
             hist.append([('new', T0), ('parse', 0) + f1 + (a,), ('parse', 0) + f1 + (b,)])
